@@ -219,7 +219,12 @@ def _bounded(b):
             except Exception:
                 obj = None
             if obj is None:
+                if ver_hint in VERSIONS and re.match(r"(info|scoreprop|meta|section|snote|note|insertion|sustain|soft|ornament|trill|stime|ptime|hammer_bounce|trailing_played_note)\(", line):
+                    # a line of a file that declares this version (or written after the format description) is a line of that version
+                    b.case("line/line_of_the_declared_version_is_read", False, {"version": version, "line": line[:160]}, "no line class of version %s reads this line" % version)
                 continue
+            if ver_hint in VERSIONS:
+                b.case("line/line_of_the_declared_version_is_read", True, {"version": version, "line": line[:160]}, "", nontrivial=False)
             count += 1
             cls = type(obj).__name__
             case = {"version": version, "class": cls, "line": line[:160]}
